@@ -33,7 +33,7 @@ PROPS = {
         ],
     },
     "C06": {
-        "filters": tiers("c06"),
+        "filters": tiers("c06", extra_thorough=["c06::fv::"]),
         "harness_timeout": {"quick": 900, "thorough": 3000},
         "bounds": {
             "quick": "CandidateValue<V>/Range<V> monomorphised at V={Null,I(i64),U(u64)}: all 64-bit endpoints/elements/probes and null_included symbolic; Multiple of 0..=2 elements; every ordered pair of {Impossible, Single, All, Multiple(0|1|2), Range(start kind x end kind)} except that Range x Range runs a path-covering 26 of the 81 bound-kind shapes and Range x Multiple(1|2) one shape; normalize and exclude_single_value on all 15 shapes; unwind 3..12",
@@ -85,6 +85,15 @@ PROPS = {
         },
         "outside": "the missing/unused-variable bookkeeping of InterpretedQuery::from_query_and_arguments (two BTreeMaps + IndexedQuery: out of reach, see DESIGN 2); values nested deeper than one list level; the variable-type inference side is under C09",
         "assumptions": COMMON + VALS,
+    },
+    "C13": {
+        "filters": tiers("c13"),
+        "bounds": {
+            "quick": "get_output_type on property types of list depth 0..=1 (symbolic nullability at every level), vertex inside / outside @optional, 0..=2 enclosing folds with symbolic @optional-ness; fold-count outputs with 0..=1 enclosing folds",
+            "thorough": "as quick plus the remaining depth x optional x fold-count combinations up to total list depth 3, built-in base names, count outputs under 2 folds",
+        },
+        "outside": "that the rows the engine produces actually carry values of the declared type (needs interpret_ir: not reachable); which vertices count as optional (get_optional_vertices_in_component walks the edge map) and the collection of outputs over the component tree (BTreeMaps); more than 2 enclosing folds / total list depth > 3",
+        "assumptions": COMMON,
     },
     "C16": {
         "filters": tiers("c16"),
